@@ -66,4 +66,4 @@ SPEC = {'id': 'C01',
 SPEC['thorough_passes'] = 4  # the thorough tier runs the whole harness under this many consecutive seeds
 
 SPEC['rule'] += (' ' +
-    'Added after rounds four and five: carriers that die on one side only (writes fail, reads just stay silent until the owner closes), old carriers whose socket lingers at the server or stays open for good while the replacement attaches, one Transport listening on two addresses, carriers cut while the last bytes of a download are in flight with the bridge closing first; a session that is out of time but moved payload bytes within the last half of the budget (37 s quick, 150 s thorough - longer than the pauses kcp-go's doubling retransmission timeout, capped at 60 s, can cause with the number of faults generated) is slow, not stalled - no verdict.')
+    'Added after rounds four and five: carriers that die on one side only (writes fail, reads just stay silent until the owner closes), old carriers whose socket lingers at the server or stays open for good while the replacement attaches, one Transport listening on two addresses, carriers cut while the last bytes of a download are in flight with the bridge closing first; a session that is out of time but moved payload bytes within the last half of the budget (37 s quick, 150 s thorough - longer than the pauses the doubling retransmission timeout of kcp-go, capped at 60 s, can cause with the number of faults generated) is slow, not stalled - no verdict.')
